@@ -124,7 +124,8 @@ Section WithMerge.
             let m' := if ss_is_empty m then m else merge_node fm t m mbase in
             Some {| t_coll := t_coll s; t_top := t_top s; t_mid := Some m'; t_base := t_base s;
                     t_clean := t_clean s; t_ll := t_ll s; t_merger := TMSwapped;
-                    t_persister := t_persister s; t_cached := t_cached s; t_closed := false |}
+                    t_persister := t_persister s;
+                    t_cached := if ss_is_empty m then t_cached s else None; t_closed := false |}
         | _, _ => None
         end
     | THandover =>
